@@ -201,7 +201,9 @@ def build_lines(spec):
         L.append(f"snsApLfSy={n},0,{nsync}")
     else:
         L.append(f"snsApLfSy=0,{n},{nsync}")
-    if nsync:
+    if nsync and np2 and n == n_acq:
+        sub = f"0:{n}"  # what SpikeGLX writes when every channel of an NP2 probe is saved (sync is channel n_acq)
+    elif nsync:
         sub = f"0:{n - 1},{2 * n_acq if not np2 else n_acq}" if n > 1 else f"0,{2 * n_acq if not np2 else n_acq}"
     else:
         sub = f"0:{n - 1}" if n > 1 else "0"
